@@ -242,6 +242,92 @@ fn r_mat(out: &mut Out, kind: &'static str, term: &str, rows: usize, cols: usize
     out.case(&format!("{} {} {} | {} | {}", kind, rows, cols, term, show(data)), &okv(r));
 }
 
+/// the memory layouts a logical rows x cols matrix is stored in before a matrix route is applied to it
+const LAYOUTS: [&str; 9] = ["cm", "tt", "rev", "cmz", "sc", "sr", "scf", "neg", "rm"];
+
+/// build the matrix `data` (row-major text order) in the given memory layout
+fn in_layout(layout: &str, rows: usize, cols: usize, data: &[Complex64]) -> ndarray::Array2<Complex64>
+{
+    use ndarray::{Array2, ShapeBuilder, s};
+    let at = |i: usize, j: usize| data[i * cols + j];
+    let junk = Complex64::new(0.8125, -0.4375);
+    let colmajor = || -> V { (0..cols).flat_map(|j| (0..rows).map(move |i| (i, j))).map(|(i, j)| at(i, j)).collect() };
+    let a: Array2<Complex64> = match layout
+    {
+        "rm" => Array2::from_shape_vec((rows, cols), data.to_vec()).unwrap(),
+        // column-major owned
+        "cm" => Array2::from_shape_vec((rows, cols).f(), colmajor()).unwrap(),
+        // the owned copy of the transpose of the (row-major) transposed matrix
+        "tt" => Array2::from_shape_vec((cols, rows), colmajor()).unwrap().t().to_owned(),
+        // reversed axes of the transposed matrix
+        "rev" => Array2::from_shape_vec((cols, rows), colmajor()).unwrap().reversed_axes(),
+        // column-major zeros, assigned
+        "cmz" => { let mut a = Array2::<Complex64>::zeros((rows, cols).f()); for i in 0..rows { for j in 0..cols { a[[i, j]] = at(i, j); } } a },
+        // every second column of a wider row-major array (not contiguous)
+        "sc" => {
+            let mut d = vec![junk; rows * cols * 2];
+            for i in 0..rows { for j in 0..cols { d[i * 2 * cols + 2 * j] = at(i, j); } }
+            Array2::from_shape_vec((rows, 2 * cols), d).unwrap().slice_move(s![.., ..;2])
+        },
+        // every second row of a taller row-major array
+        "sr" => {
+            let mut d = vec![junk; rows * cols * 2];
+            for i in 0..rows { for j in 0..cols { d[2 * i * cols + j] = at(i, j); } }
+            Array2::from_shape_vec((2 * rows, cols), d).unwrap().slice_move(s![..;2, ..])
+        },
+        // every second column of a wider column-major array
+        "scf" => {
+            let mut big = Array2::from_elem((rows, 2 * cols).f(), junk);
+            for i in 0..rows { for j in 0..cols { big[[i, 2 * j]] = at(i, j); } }
+            big.slice_move(s![.., ..;2])
+        },
+        // rows stored in reverse (negative stride)
+        "neg" => {
+            let d: V = (0..rows).rev().flat_map(|i| (0..cols).map(move |j| (i, j))).map(|(i, j)| at(i, j)).collect();
+            let mut a = Array2::from_shape_vec((rows, cols), d).unwrap();
+            a.invert_axis(ndarray::Axis(0));
+            a
+        },
+        other => panic!("unknown layout {}", other)
+    };
+    assert_eq!((a.rows(), a.cols()), (rows, cols));
+    for i in 0..rows { for j in 0..cols { assert!(a[[i, j]] == at(i, j), "layout {} does not hold the matrix", layout); } }
+    a
+}
+
+fn logical(a: &ndarray::Array2<Complex64>) -> V
+{
+    let mut v = Vec::with_capacity(a.len());
+    for i in 0..a.rows() { for j in 0..a.cols() { v.push(a[[i, j]]); } }
+    v
+}
+
+/// `Gate::apply_mat` / `apply_mat_slice` on a matrix stored in `layout`; the answer must not depend on it
+fn r_mat_layout(out: &mut Out, kind: &'static str, layout: &'static str, term: &str, rows: usize, cols: usize, data: &V)
+{
+    let (t, d2) = (term.to_string(), data.clone());
+    let r = catch(move || {
+        let g = mk(&t);
+        let mut a = in_layout(layout, rows, cols, &d2);
+        if kind == "applymat" { g.apply_mat(&mut a); } else { g.apply_mat_slice(a.view_mut()); }
+        logical(&a)
+    });
+    out.case(&format!("{}@{} {} {} | {} | {}", kind, layout, rows, cols, term, show(data)), &okv(r));
+}
+
+/// `gates::apply_gate_mat_slice` on a matrix stored in `layout`
+fn r_gmatslice_layout(out: &mut Out, layout: &'static str, term: &str, n: usize, bits: &[usize], rows: usize, cols: usize, data: &V)
+{
+    let (t, d2, b2) = (term.to_string(), data.clone(), bits.to_vec());
+    let r = catch(move || {
+        let g = mk(&t);
+        let mut a = in_layout(layout, rows, cols, &d2);
+        q1tsim::gates::apply_gate_mat_slice(a.view_mut(), &g, &b2, n);
+        logical(&a)
+    });
+    out.case(&format!("gmatslice@{} {} {} {} | {} | {}", layout, n, cols, join(bits), term, show(data)), &okv(r));
+}
+
 fn r_gslice(out: &mut Out, term: &str, n: usize, bits: &[usize], v: &V)
 {
     let (t, v2, b2) = (term.to_string(), v.clone(), bits.to_vec());
@@ -428,6 +514,153 @@ fn long_loops(out: &mut Out, nmax: usize, rng: &mut SplitMix64)
             for n in k..=nmax.min(k + 2)
             {
                 for bits in sample(tuples(n, k), if th { 4 } else { 2 }, rng) { placed(out, &term, n, &bits, 2, rng); }
+            }
+        }
+    }
+}
+
+/// every matrix route on matrices in every memory layout: 1- to 4-qubit gates (primitives with hand-written
+/// routes, the generic default route, C, Kron, Composite, Loop), 2-4 state columns, operand orders sampled
+fn layouts(out: &mut Out, rng: &mut SplitMix64)
+{
+    let th = thorough();
+    let a = |rng: &mut SplitMix64| fbits(gate::gen_angle(rng));
+    let mut terms: Vec<(String, usize)> = vec![
+        ("H".into(), 1), (format!("U3 {} {} {}", a(rng), a(rng), a(rng)), 1), (format!("RY {}", a(rng)), 1),
+        ("CX".into(), 2), ("CY".into(), 2), ("CZ".into(), 2), ("Swap".into(), 2), ("CH".into(), 2), ("CV".into(), 2),
+        (format!("CRX {}", a(rng)), 2), (format!("CU3 {} {} {}", a(rng), a(rng), a(rng)), 2), (format!("C U2 {} {}", a(rng), a(rng)), 2),
+        (format!("Kron H RZ {}", a(rng)), 2), (format!("Kron T X"), 2), (format!("Comp g 2 2 H 1 1 CX 2 1 0"), 2),
+        (format!("Loop l 3 b 2 2 CX 2 0 1 RY {} 1 1", a(rng)), 2),
+        ("CCX".into(), 3), ("CCZ".into(), 3), (format!("CCRY {}", a(rng)), 3), (format!("Kron CX RX {}", a(rng)), 3), ("Kron S Swap".into(), 3),
+        ("C Swap".into(), 3), (format!("Comp g 3 3 CX 2 2 0 T 1 1 CRZ {} 2 0 1", a(rng)), 3),
+        ("Kron CX Kron H T".into(), 4), ("C C CX".into(), 4), ("Kron Swap CY".into(), 4), (format!("Comp g 4 3 CCX 3 3 1 0 H 1 2 CRX {} 2 2 3", a(rng)), 4)];
+    for k in 2..=(if th { 4 } else { 3 }) { for _ in 0..(if th { 6 } else { 2 }) { terms.push((gate::gen_term(k, 2, rng), k)); } }
+    for (term, k) in terms
+    {
+        // leading routes, states of 2^k * t rows
+        for &t in &[1usize, 2]
+        {
+            let rows = (1usize << k) * t;
+            for (i, &lay) in LAYOUTS.iter().enumerate()
+            {
+                let cols = 2 + (i + t) % 3;
+                r_mat_layout(out, "applymatslice", lay, &term, rows, cols, &rand_mat(rows, cols, rng));
+                if t == 1 || th { r_mat_layout(out, "applymat", lay, &term, rows, cols, &rand_mat(rows, cols, rng)); }
+            }
+        }
+        // placements: every operand order for n <= 3 (and n = 4 in thorough), sampled otherwise
+        for n in k..=4usize.min(k + 2)
+        {
+            let all = tuples(n, k);
+            let tups = if n <= 3 || th { all } else { sample(all, 4, rng) };
+            for (j, bits) in tups.iter().enumerate()
+            {
+                let dim = 1usize << n;
+                let lays: Vec<&'static str> = if th || n <= 3 { LAYOUTS.to_vec() } else { (0..4).map(|i| LAYOUTS[(i * 2 + j) % LAYOUTS.len()]).collect() };
+                for (i, lay) in lays.into_iter().enumerate()
+                {
+                    let cols = 2 + (i + j) % 3;
+                    r_gmatslice_layout(out, lay, &term, n, bits, dim, cols, &rand_mat(dim, cols, rng));
+                }
+            }
+        }
+    }
+}
+
+/// angles at which a shortcut is tempting: exact multiples of pi/2 (whole and half turns, as k * FRAC_PI_2 and as
+/// the literal products), signed zeros, tiny and subnormal angles, angles next to a whole number of turns
+fn special_angles() -> Vec<f64>
+{
+    use std::f64::consts::{PI, FRAC_PI_2};
+    let mut v: Vec<f64> = (-16..=16).map(|k| k as f64 * FRAC_PI_2).collect();
+    v.extend_from_slice(&[2.0 * PI, -2.0 * PI, 4.0 * PI, -4.0 * PI, 6.0 * PI, -6.0 * PI, 8.0 * PI, 3.0 * PI, 5.0 * PI, 10.0 * PI, 100.0 * PI,
+        0.0, -0.0, 1e-8, -1e-8, 2e-8, 1e-16, -1e-16, 5e-324, -5e-324, 1e-300, f64::MIN_POSITIVE]);
+    for k in [-3i32, -2, -1, 1, 2, 3, 5].iter()
+    {
+        let c = *k as f64 * 2.0 * PI;
+        v.extend_from_slice(&[c + 1e-8, c - 1e-8, c * (1.0 + f64::EPSILON), c * (1.0 - f64::EPSILON), c + 3e-9]);
+    }
+    v.extend_from_slice(&[PI + 1e-8, PI - 1e-8, FRAC_PI_2 + 1e-8, 1e-8 - PI]);
+    v
+}
+
+/// a light pass over every kind of route for one term
+fn routes_lite(out: &mut Out, term: &str, k: usize, rng: &mut SplitMix64)
+{
+    r_matrix(out, term);
+    let dim = 1usize << k;
+    r_vec(out, "apply", term, &rand_unit(dim, rng));
+    r_vec(out, "applyslice", term, &rand_unit(2 * dim, rng));
+    r_mat(out, "applymat", term, dim, 2, &rand_mat(dim, 2, rng));
+    r_mat(out, "applymatslice", term, 2 * dim, 3, &rand_mat(2 * dim, 3, rng));
+    let n = k + 1;
+    let all = tuples(n, k);
+    let bits = all[rng.below(all.len() as u64) as usize].clone();
+    let d = 1usize << n;
+    r_gslice(out, term, n, &bits, &rand_unit(d, rng));
+    r_gmatslice(out, term, n, &bits, d, 2, &rand_mat(d, 2, rng));
+    r_vsapply(out, term, n, &bits, rng);
+    let shots = 5;
+    let pre: Vec<bool> = (0..shots).map(|_| rng.coin()).collect();
+    let mixed: Vec<bool> = (0..shots).map(|i| i != 1).collect();
+    r_vscond(out, term, n, &bits, shots, &mixed, Some(&pre), rng);
+}
+
+/// every parametrised gate at every special angle, plain and inside C / CC / Kron / Composite / Loop, on every
+/// route, applied to superposed states (so that a relative phase on the control is visible)
+fn special(out: &mut Out, rng: &mut SplitMix64)
+{
+    let th = thorough();
+    let angles = special_angles();
+    let pick = |rng: &mut SplitMix64| -> f64 { if rng.below(2) == 0 { angles[rng.below(angles.len() as u64) as usize] } else { gate::gen_angle(rng) } };
+    for (ia, &x) in angles.iter().enumerate()
+    {
+        let h = fbits(x);
+        let mut terms: Vec<(String, usize)> = vec![];
+        for g in ["RX", "RY", "RZ", "U1"].iter()
+        {
+            terms.push((format!("{} {}", g, h), 1));
+            terms.push((format!("C{} {}", g, h), 2));
+            terms.push((format!("C {} {}", g, h), 2));
+            if *g != "U1" { terms.push((format!("CC{} {}", g, h), 3)); }
+            // combinators: cycle through them so that every (gate, combinator, angle class) shows up
+            let combos: Vec<(String, usize)> = vec![
+                (format!("Kron {} {} H", g, h), 2), (format!("Kron H {} {}", g, h), 2), (format!("C C {} {}", g, h), 3),
+                (format!("Comp g 2 3 H 1 0 C{} {} 2 0 1 H 1 0", g, h), 2), (format!("Comp g 2 2 {} {} 1 1 CX 2 1 0", g, h), 2),
+                (format!("Loop l 3 b 1 1 {} {} 1 0", g, h), 1), (format!("Loop l 2 b 2 2 H 1 0 C{} {} 2 0 1", g, h), 2),
+                (format!("Kron C{} {} X", g, h), 3)];
+            if th { terms.extend(combos); }
+            else { let n = combos.len(); terms.push(combos[ia % n].clone()); terms.push(combos[(ia + 3) % n].clone()); }
+        }
+        // several parameters: the special angle in one slot
+        let slot = ia % 3;
+        let p3 = |rng: &mut SplitMix64, s: usize| -> String { (0..3).map(|j| fbits(if j == s { x } else { pick(rng) })).collect::<Vec<_>>().join(" ") };
+        let p2 = |rng: &mut SplitMix64, s: usize| -> String { (0..2).map(|j| fbits(if j == s % 2 { x } else { pick(rng) })).collect::<Vec<_>>().join(" ") };
+        terms.push((format!("U3 {}", p3(rng, slot)), 1));
+        terms.push((format!("U2 {}", p2(rng, slot)), 1));
+        terms.push((format!("CU3 {}", p3(rng, (slot + 1) % 3)), 2));
+        terms.push((format!("CU2 {}", p2(rng, slot + 1)), 2));
+        terms.push((format!("C U3 {}", p3(rng, (slot + 2) % 3)), 2));
+        if th { for s in 0..3 { terms.push((format!("U3 {}", p3(rng, s)), 1)); terms.push((format!("CU3 {}", p3(rng, s)), 2)); } }
+        for (term, k) in terms { routes_lite(out, &term, k, rng); }
+    }
+    // tiny angles accumulated in long loops
+    for &x in &[1e-8f64, 2e-8, 1e-16, 5e-324]
+    {
+        for &it in if th { &[1000usize, 10000, 100000][..] } else { &[1000usize][..] }
+        {
+            for g in ["RX", "RY", "RZ", "U1"].iter()
+            {
+                let l = format!("Loop l {} b 1 1 {} {} 1 0", it, g, fbits(x));
+                r_matrix(out, &l);
+                r_vec(out, "applyslice", &l, &rand_unit(4, rng));
+                r_mat(out, "applymatslice", &l, 2, 2, &rand_mat(2, 2, rng));
+                if it <= 1000
+                {
+                    let c = format!("C {}", l);
+                    r_vec(out, "apply", &c, &rand_unit(4, rng));
+                    r_gslice(out, &c, 3, &[2, 0], &rand_unit(8, rng));
+                }
             }
         }
     }
@@ -691,6 +924,8 @@ fn main()
 
     many_columns(&mut out, &mut rng);
     long_loops(&mut out, nmax_all, &mut rng);
+    layouts(&mut out, &mut rng);
+    special(&mut out, &mut rng);
 
     malformed(&mut out, &mut rng);
     let n = out.finish();
